@@ -23,9 +23,11 @@ def run(tier, seed):
         for t, v in zip(tagged, verdicts):
             v["id"] = t["id"]
         r.add_cases(tagged, verdicts, nontrivial=lc.nontrivial)
+    for env in (None, {"STEEL_JIT": "false"}):
+        lc.replay_modules(vlib, cases, work, r, "c08.mod" + ("n" if env else ""), env=env, nontriv=lc.nontrivial_mod)
     r.cov["rule"] = ("delim family (reset/shift defined exactly as scheme/stdlib.scm does, on call/cc and a meta-continuation cell: contexts x uses of k x dynamic-wind nesting) and control family of LangFam.tla (capture context x dynamic-wind nesting x invocation; escapes from nested calls, "
                      "map/foldl callbacks and handlers; errors through winds and handlers) and every builder program containing call/cc "
-                     "or with-handler, run on the Lang.tla CEK machine and replayed under JIT on and off")
+                     "or with-handler, run on the Lang.tla CEK machine and replayed under JIT on and off, as top-level units and as module files")
     r.cov["exhaustive"] = True
     return r.finish()
 
